@@ -19,14 +19,14 @@ Rec == ndJsonDeserialize(IOEnv.TRACE)
 KnownS3 == IOEnv.KNOWN_S3 = "1"
 K == 4
 
-VARIABLES l, run, clean, nfr, got, tx, viol, known
-tvars == <<l, run, clean, nfr, got, tx, viol, known>>
+VARIABLES l, run, clean, nfr, got, tx, hoff, maxAck, viol, known
+tvars == <<l, run, clean, nfr, got, tx, hoff, maxAck, viol, known>>
 
 ToSet(s) == {s[i] : i \in DOMAIN s}
 LMin(S) == CHOOSE x \in S : \A y \in S : x <= y
 
 \* tx: <<sn, fragment>> -> how often the writer put that fragment on the wire
-TraceInit == l = 1 /\ run = 0 /\ clean = 0 /\ nfr = <<>> /\ got = <<>> /\ tx = <<>> /\ viol = {} /\ known = {}
+TraceInit == l = 1 /\ run = 0 /\ clean = 0 /\ nfr = <<>> /\ got = <<>> /\ tx = <<>> /\ hoff = 0 /\ maxAck = 0 /\ viol = {} /\ known = {}
 
 Put(f, k, v) == [x \in DOMAIN f \cup {k} |-> IF x = k THEN v ELSE f[x]]
 
@@ -36,23 +36,29 @@ Round(e) ==
       handed  == e.handed
       c2 == IF e.faults > 0 THEN 0 ELSE clean + 1
       converged == missing = {} /\ e.acked = e.last + 1
-      s3sig == /\ missing # {}
-               /\ LMin(missing) \in DOMAIN nfr /\ nfr[LMin(missing)] > 0      \* lowest missing is fragmented
+      \* the number the reader is stuck at: the base of its ACKNACKs as the writer sees it (after a re-match of the reader
+      \* side this can be a sample that was handed over during the previous match and is requested again)
+      lo == e.acked
+      s3sig == /\ lo >= 1 /\ lo <= e.last
+               /\ lo \in DOMAIN nfr /\ nfr[lo] > 0                           \* it is fragmented
                /\ "rw:NACKFRAG" \in traffic                                    \* the reader keeps asking for fragments
                /\ e.unsent = <<>>                                              \* the writer has nothing scheduled
                \* and a fragment of it really never reached the reader (otherwise it is not this finding) ...
-               /\ ~((1..nfr[LMin(missing)]) \subseteq (IF LMin(missing) \in DOMAIN got THEN got[LMin(missing)] ELSE {}))
+               /\ ~((1..nfr[lo]) \subseteq (IF lo \in DOMAIN got THEN got[lo] ELSE {}))
                \* ... although the writer did repeat every such fragment at least once: the finding is that the repair is
                \* not repeated, a writer that never repairs at all is something else
-               /\ \A f \in 1..nfr[LMin(missing)] :
-                     f \notin (IF LMin(missing) \in DOMAIN got THEN got[LMin(missing)] ELSE {})
-                       => (<<LMin(missing), f>> \in DOMAIN tx /\ tx[<<LMin(missing), f>>] >= 2)
+               \* (or the sample had been acknowledged during an earlier match of the reader side, so the writer rightly
+               \* has nothing scheduled for it and only the NACKFRAG could bring it back)
+               /\ \/ \A f \in 1..nfr[lo] :
+                       f \notin (IF lo \in DOMAIN got THEN got[lo] ELSE {}) => (<<lo, f>> \in DOMAIN tx /\ tx[<<lo, f>>] >= 2)
+                  \/ lo < maxAck
       stuck == c2 >= K /\ ~converged
       vConv == IF stuck /\ ~(KnownS3 /\ s3sig) THEN {"C02_not_converged_after_K_fault_free_rounds"} ELSE {}
       kConv == IF stuck /\ KnownS3 /\ s3sig THEN {"C02_S3_nackfrag_not_acted_upon"} ELSE {}
       vQuiet == IF c2 >= K + 1 /\ converged /\ traffic # {} THEN {"C02_traffic_after_convergence"} ELSE {}
       vBytes == IF e.bytes_bad # <<>> THEN {"C05_reassembled_bytes_differ"} ELSE {}
-      vTwice == IF \E i, j \in DOMAIN handed : i < j /\ handed[i] = handed[j] THEN {"C05_sample_delivered_twice"} ELSE {}
+      \* (hoff: what was handed over before the reader side re-matched the writer belongs to the previous match)
+      vTwice == IF \E i, j \in DOMAIN handed : hoff < i /\ i < j /\ handed[i] = handed[j] THEN {"C05_sample_delivered_twice"} ELSE {}
       \* every fragment of the lowest sample not yet handed over (nothing holds it back: the reliable reader hands
       \* over in order) has been delivered to the reader, yet it is not handed over
       \* (e.acked >= sn: the reader has acknowledged everything below it, so it knows the fate of every lower number -
@@ -66,15 +72,18 @@ Round(e) ==
   IN /\ clean' = c2
      /\ viol' = viol \cup vConv \cup vQuiet \cup vBytes \cup vTwice \cup vInc \cup vAsm
      /\ known' = known \cup kConv
-     /\ UNCHANGED <<run, nfr, got, tx>>
+     /\ maxAck' = IF e.acked > maxAck THEN e.acked ELSE maxAck
+     /\ UNCHANGED <<run, nfr, got, tx, hoff>>
 
 Step ==
   /\ l <= Len(Rec)
   /\ l' = l + 1
   /\ LET e == Rec[l] IN
-     CASE e.ev = "Reset" -> run' = e.run /\ clean' = 0 /\ nfr' = <<>> /\ got' = <<>> /\ tx' = <<>> /\ viol' = {} /\ known' = {}
-       [] e.ev = "Write" -> nfr' = Put(nfr, e.sn, e.nfrags) /\ clean' = 0 /\ UNCHANGED <<run, got, tx, viol, known>>
-       [] e.ev = "Clean" -> clean' = 0 /\ UNCHANGED <<run, nfr, got, tx, viol, known>>
+     CASE e.ev = "Reset" -> run' = e.run /\ clean' = 0 /\ nfr' = <<>> /\ got' = <<>> /\ tx' = <<>> /\ hoff' = 0 /\ maxAck' = 0 /\ viol' = {} /\ known' = {}
+       [] e.ev = "Write" -> nfr' = Put(nfr, e.sn, e.nfrags) /\ clean' = 0 /\ UNCHANGED <<run, got, tx, hoff, maxAck, viol, known>>
+       [] e.ev = "Clean" -> clean' = 0 /\ UNCHANGED <<run, nfr, got, tx, hoff, maxAck, viol, known>>
+       \* the reader side re-matches the writer: convergence is owed again, fragments arrive afresh
+       [] e.ev = "Rematch" -> clean' = 0 /\ hoff' = e.handed /\ got' = <<>> /\ UNCHANGED <<run, nfr, tx, maxAck, viol, known>>
        [] e.ev = "Dgram" ->
             /\ got' = IF e.k = "FRAG" /\ e.fate # "drop"
                         THEN Put(got, e.sn, (IF e.sn \in DOMAIN got THEN got[e.sn] ELSE {}) \cup {e.f}) ELSE got
@@ -86,7 +95,9 @@ Step ==
                      ~(e.f >= 1 /\ e.f <= Fr!NumFrags(e.size, e.fsz) /\ e.plen = Fr!FragLen(e.size, e.fsz, e.f)
                        /\ e.sn \in DOMAIN nfr /\ nfr[e.sn] = Fr!NumFrags(e.size, e.fsz))
                     THEN {"C05_fragment_geometry"} ELSE {})
-            /\ UNCHANGED <<run, clean, nfr, known>>
+            \* the highest base of an ACKNACK that reached the writer
+            /\ maxAck' = IF e.k = "ACKNACK" /\ e.dir = "rw" /\ e.fate # "drop" /\ e.sn > maxAck THEN e.sn ELSE maxAck
+            /\ UNCHANGED <<run, clean, nfr, hoff, known>>
        [] e.ev = "Round" -> Round(e)
   /\ (viol' # viol /\ viol' # {}) =>
         PrintT("VIOL line=" \o ToString(l) \o " run=" \o ToString(run') \o " clauses=" \o ToString(viol' \ viol))
